@@ -1265,7 +1265,7 @@ func (g *nfGen) body(w *nfWorld) string {
 func nfScripted(rng *rand.Rand, hook string, variant int) []string {
 	d := int(notificationDelay / time.Millisecond)
 	ops := []string{fmt.Sprintf("config unset unset unset %s", hook), "ttl 60000"}
-	switch variant % 6 {
+	switch variant % 7 {
 	case 0: // F7 shape: held response, change, notification handled, fill, list
 		ops = append(ops, "change tools add", "connect c0 1 modern tpr", "listen c0", "list c0 tools post", "change tools add",
 			fmt.Sprintf("advance %d", d))
@@ -1292,6 +1292,14 @@ func nfScripted(rng *rand.Rand, hook string, variant int) []string {
 	case 4: // read cache against resource-updated
 		ops = append(ops, "connect c0 1 modern -", "subscribe c0 u0", "list c0 read:0 n", "list c0 read:0 n", "list c0 read:0 post",
 			"rupdated u0", "fill c0 read:0", "list c0 read:0 n", "advance 1", "list c0 read:0 n")
+	case 6: // a session connects between the timer firing and the callback's snapshot, then another change
+		ops = append(ops, "change tools add", "connect c0 1 legacy -", "change tools add", fmt.Sprintf("advance %d", d),
+			"connect c1 2 legacy t", "change tools add")
+		if hook == "hook1" {
+			ops = append(ops, "cbrun tools", fmt.Sprintf("advance %d", d), "cbrun tools")
+		} else {
+			ops = append(ops, fmt.Sprintf("advance %d", d))
+		}
 	case 5: // capability inferred at listen time: nothing to list yet
 		ops = append(ops, "connect c0 1 modern tpr", "listen c0", "tables", "change prompts add", fmt.Sprintf("advance %d", d+1))
 		if hook == "hook1" {
@@ -1361,7 +1369,7 @@ func TestVerifNotify(t *testing.T) {
 		runOps("replay", strings.Split(string(b), "\n"), "replay")
 		return
 	}
-	for v := 0; v < 6; v++ {
+	for v := 0; v < 7; v++ {
 		runOps(fmt.Sprintf("s%d", v), nfScripted(verifRng(int64(v)), hookTok, v), "scripted")
 	}
 	n := verifN(3000, 40000)
